@@ -389,6 +389,9 @@ type DoubleMsg struct {
 	Lens    []int `json:"lens"`              // value lengths
 	Reject  bool  `json:"reject,omitempty"`  // first, a large value is written into an undersized buffer (the double refuses it)
 	Forward bool  `json:"forward,omitempty"` // value 0 is a sub-slice of the buffer the double handed out for the previous message
+	// RejectMid: between the first and the second value of the message a large value is offered together with an
+	// undersized scratch buffer (the double refuses it); the message then goes on in its own buffer
+	RejectMid bool `json:"reject_mid,omitempty"`
 }
 
 // DoubleCase is a sequence of messages on one double.
@@ -446,12 +449,21 @@ func checkDoubleHistory(c DoubleCase, cv *cov) (v *evid.Violation) {
 			}
 			b := nw.Malloc(total)
 			off := 0
-			for _, val := range vals {
+			for vi, val := range vals {
 				off += thrift.Binary.WriteBinaryNocopy(b[off:], nw, val)
+				if vi == 0 && m.RejectMid {
+					scratch := make([]byte, 10)
+					big := patternBytes(byte(mi+3), 5000)
+					if p, _ := evid.Safe(func() { thrift.Binary.WriteBinaryNocopy(scratch, nw, big) }); p == nil {
+						v = evid.Failf("message %d: the double accepted a 5000-byte direct write with 6 bytes of remaining capacity", mi)
+						return
+					}
+					sawReject = true
+				}
 			}
 			got := nw.Bytes() // the buffer offset advances by 4 only for a value handed over directly
 			if !bytes.Equal(got, want) {
-				v = evid.Failf("message %d of %d on one reused direct writer (value lengths %v, after a refused write: %v, first value forwarded from the previous buffer: %v): the spliced stream differs from the copying path at offset %d (%d vs %d bytes)", mi, len(c.Msgs), m.Lens, m.Reject, m.Forward && prevBuf != nil, firstDiff(got, want), len(got), len(want))
+				v = evid.Failf("message %d of %d on one reused direct writer (value lengths %v, after a refused write: %v, with a refused write after the first value: %v, first value forwarded from the previous buffer: %v): the spliced stream differs from the copying path at offset %d (%d vs %d bytes)", mi, len(c.Msgs), m.Lens, m.Reject, m.RejectMid, m.Forward && prevBuf != nil, firstDiff(got, want), len(got), len(want))
 				return
 			}
 			if nw.WriteDirectN() > 0 && mi > 0 {
@@ -476,13 +488,13 @@ func checkDoubleHistory(c DoubleCase, cv *cov) (v *evid.Violation) {
 func init() { register("c15_double_history", checkDoubleHistory) }
 
 func TestC15_DoubleHistory(t *testing.T) {
-	rec := evid.New("C15", "c15_double_history", "rapid: 1..8 messages written one after the other through one NetpollDirectWriter (the repository's direct-writer double, reused via Malloc): each message is 1..5 binaries (lengths as in c15_random) written with WriteBinaryNocopy and spliced with Bytes(); before some messages a 5000-byte direct write into a 10-byte buffer is refused by the double (recovered); in some messages the first value is a sub-slice of the buffer handed out for the previous message (zero-copy forwarding); oracle = copying path; non-trivial = a direct write happened on a reused writer")
+	rec := evid.New("C15", "c15_double_history", "rapid: 1..8 messages written one after the other through one NetpollDirectWriter (the repository's direct-writer double, reused via Malloc): each message is 1..5 binaries (lengths as in c15_random) written with WriteBinaryNocopy and spliced with Bytes(); before some messages, and in some messages between the first and the second value, a 5000-byte direct write with a 10-byte buffer is refused by the double (recovered); in some messages the first value is a sub-slice of the buffer handed out for the previous message (zero-copy forwarding); oracle = copying path; non-trivial = a direct write happened on a reused writer")
 	defer rec.Flush()
 	runRapid(t, rec, "c15_double_history", evid.Pick(15000, 150000), func(t *rapid.T) DoubleCase {
 		var c DoubleCase
 		n := rapid.IntRange(1, 8).Draw(t, "msgs")
 		for i := 0; i < n; i++ {
-			m := DoubleMsg{Reject: rapid.IntRange(0, 3).Draw(t, "reject") == 0, Forward: rapid.IntRange(0, 2).Draw(t, "forward") == 0}
+			m := DoubleMsg{Reject: rapid.IntRange(0, 3).Draw(t, "reject") == 0, Forward: rapid.IntRange(0, 2).Draw(t, "forward") == 0, RejectMid: rapid.IntRange(0, 3).Draw(t, "rejectMid") == 0}
 			k := rapid.IntRange(1, 5).Draw(t, "nvals")
 			for j := 0; j < k; j++ {
 				m.Lens = append(m.Lens, genNocopyLen(t, "len"))
